@@ -429,8 +429,8 @@ def probe_programs():
 # ---------------------------------------------------------------------------------------------
 BAD_NAMES = ["1x", "a-b", "a b", "class", "END", "a.b", "a/b"]
 BAD_NAMES_QUICK = ["1x", "class", "END", "a.b"]
-BAD_TYPES = [STR, NOANN, T("list", INT), T("union", INT, STR)]
-BAD_TYPES_QUICK = [STR, NOANN]
+BAD_TYPES = [STR, NOANN, T("list", INT), T("union", INT, STR), T("ann", STR), T("ann", T("union", INT, T("none"))), T("tvarb", STR), T("tvar")]
+BAD_TYPES_QUICK = [STR, NOANN, T("ann", T("union", STR, T("none")))]
 
 
 def _rename_node(p, i, new):
@@ -696,15 +696,44 @@ def _callable_for(n, form):
     ns = {}
     exec(src, ns)  # noqa: S102 - harness-generated node body
     f = ns["body"]
-    ann = {x: to_py(t, form) for x, t in n["intypes"] if t["k"] != "~none"}
+    if form == "S":
+        # every annotation is a STRING (forward reference / `from __future__ import annotations` style),
+        # to be resolved through the function's globals
+        ns.update(_SRC_GLOBALS)
+        conv = lambda t: term_src(t, ns)  # noqa: E731
+        mk_tuple = lambda parts: "tuple[" + ", ".join(parts) + "]"  # noqa: E731
+    else:
+        conv = lambda t: to_py(t, form)  # noqa: E731
+        mk_tuple = lambda parts: tuple[tuple(parts)]  # noqa: E731
+    ann = {x: conv(t) for x, t in n["intypes"] if t["k"] != "~none"}
     ot = dict(map(tuple_pair, n["outtypes"]))
     if n["outputs"] and all(o in ot and ot[o]["k"] != "~none" for o in n["outputs"]):
         if len(n["outputs"]) == 1:
-            ann["return"] = to_py(ot[n["outputs"][0]], form)
+            ann["return"] = conv(ot[n["outputs"][0]])
         else:
-            ann["return"] = tuple[tuple(to_py(ot[o], form) for o in n["outputs"])]
+            ann["return"] = mk_tuple([conv(ot[o]) for o in n["outputs"]])
     f.__annotations__ = ann
     return f
+
+
+_SRC_GLOBALS = {"typing": typing, "collections": collections, "A": A, "B": B}
+_SRC_NAMES = {"int": "int", "bool": "bool", "str": "str", "A": "A", "B": "B", "none": "None", "any": "typing.Any",
+              "list": "list", "dict": "dict", "tuple": "tuple", "seq": "collections.abc.Sequence",
+              "iter": "collections.abc.Iterable", "mapping": "collections.abc.Mapping"}
+
+
+def term_src(t, ns):
+    """Python source text of a type term (TypeVars are put into the namespace `ns` under their own names)."""
+    k, args = t["k"], t["args"]
+    if k in ("tvar", "tvarb", "tvarc"):
+        tv = _tvar(t, "U")
+        ns[tv.__name__] = tv
+        return tv.__name__
+    if k == "ann":
+        return "typing.Annotated[" + term_src(args[0], ns) + ", 'meta']"
+    if k == "union":
+        return "typing.Union[" + ", ".join(term_src(a, ns) for a in args) + "]"
+    return _SRC_NAMES[k] + ("[" + ", ".join(term_src(a, ns) for a in args) + "]" if args else "")
 
 
 def build(p, path="", form="U", check_interface=True, grow=False):
